@@ -1007,7 +1007,7 @@ class Steward(object):
         data['fragment'] = fragment
 
         data['headers'] = copy.copy(self.requestant.headers)  # make copy
-        data['body'] = self.requestant.body.decode('utf-8')
+        data['body'] = self.requestant.body.decode('utf-8', 'replace')
         data['data'] = copy.copy(self.requestant.data)  # make copy
 
         msg = self.responder.build(status=200, data=data)
